@@ -2126,6 +2126,11 @@ func parseForeignContent(p *parser) bool {
 			p.acknowledgeSelfClosingTag()
 		}
 	case EndTagToken:
+		if len(p.oe) == 1 {
+			// Fragment case: the only open element is the root html
+			// element. It is not a foreign element and must not be popped.
+			return p.im(p)
+		}
 		if strings.EqualFold(p.oe[len(p.oe)-1].Data, p.tok.Data) {
 			p.oe = p.oe[:len(p.oe)-1]
 			return true
